@@ -124,6 +124,8 @@ where
         };
 
     let mut body_string = String::new();
+    // utf-16 bytes are collected over all frames: a frame may end inside a code unit
+    let mut utf16_bytes: Vec<u8> = Vec::new();
     while let Some(next) = response.frame().await {
         let frame = match next {
             Ok(f) => f,
@@ -137,15 +139,7 @@ where
         if let Some(chunk) = frame.data_ref() {
             match charset_type {
                 "utf-16" => {
-                    // Convert Bytes to Vec<u8>
-                    let byte_vec: Vec<u8> = chunk.to_vec();
-                    // Convert Vec<u8> to Vec<u16>
-                    let u16_vec: Vec<u16> = byte_vec
-                        .chunks(2)
-                        .map(|chunk| u16::from_le_bytes([chunk[0], chunk[1]]))
-                        .collect();
-
-                    body_string.push_str(&String::from_utf16_lossy(&u16_vec));
+                    utf16_bytes.extend_from_slice(chunk);
                 }
                 "utf-32" => {
                     return Err(Error::Hyper(HyperErrorType::Deserialize(
@@ -158,6 +152,15 @@ where
                 }
             };
         }
+    }
+
+    if charset_type == "utf-16" {
+        // Convert Vec<u8> to Vec<u16>; an odd trailing byte cannot form a code unit and is ignored
+        let u16_vec: Vec<u16> = utf16_bytes
+            .chunks_exact(2)
+            .map(|chunk| u16::from_le_bytes([chunk[0], chunk[1]]))
+            .collect();
+        body_string.push_str(&String::from_utf16_lossy(&u16_vec));
     }
 
     match content_type {
